@@ -8,6 +8,7 @@ the real code by the D stream `t2.rt` (specification interpreter on the bytes th
 A float64 argument is the dyadic rational `n / 2^k`; values are in 2⁻¹⁶ units.
 -/
 import SfntV.Proofs.T2Encode
+import SfntV.Proofs.T2Path
 
 namespace SfntV.Props.C04
 open SfntV SfntV.T2 SfntV.T2Enc
@@ -70,5 +71,81 @@ theorem C04_number_bigstep_fails : ¬ C04_number_full := by
   have := h 64000 0 (by decide)
   revert this
   decide
+
+
+/-! ### the optimising encoder: every proposed edge, every path of proposed edges
+
+`dijkstra.ShortestPath` is not modelled and not trusted: the theorems quantify over every edge
+`appendEdges` (the model of `encoder.AppendEdges`, tied by the V stream `t2.edges`) proposes and over
+every path of such edges; that the Go-chosen path IS a path of proposed edges is checked on each run
+(V stream `t2.asm`). -/
+
+/-- Every edge proposed for the operators rlineto, hlineto, vlineto, rlinecurve, rrcurveto,
+rcurveline, hhcurveto, vvcurveto, hflex, hflex1 is sound (`EdgeSound`): it advances and stays inside the sub-path, uses at
+most 48 operands, gives the operator a TN5177-legal operand count, takes its operands from the
+commands it covers and — executed by the specification interpreter on these operands, from any state —
+draws exactly the commands `cmds[0 : to-from]`, clearing the stack.
+Partial: the edges for hvcurveto and vhcurveto are not covered yet. -/
+theorem C04_edge_sound_partial (frm : Nat) (cmds : List Seg) (e : Edge)
+    (he : e ∈ appendEdges frm cmds) (hc : coreOp2 e.op = true) : EdgeSound frm cmds e :=
+  appendEdges_sound_core2 frm cmds e he hc
+
+/-- the full statement: every proposed edge -/
+def C04_edge_sound_full : Prop :=
+  ∀ (frm : Nat) (cmds : List Seg) (e : Edge), e ∈ appendEdges frm cmds → EdgeSound frm cmds e
+
+/-- Operands produced by `encodeNumber` for |x| ≤ 32767 are read back by the interpreter as the
+value the encoder recorded (this is the hypothesis `Decodes` of the byte-level theorems). -/
+theorem C04_operand_decodes (n : Int) (k : Nat) (h : n.natAbs ≤ 32767 * 2 ^ k) : Decodes (encNum n k) := by
+  constructor
+  · unfold encNum encodeNumber
+    simp only
+    split
+    · unfold encodeInt Spec.T2.encodeInt
+      split
+      · simp
+      · split
+        · simp
+        · split <;> simp
+    · simp [Spec.T2.encodeFixed]
+  · intro q env s rest hs
+    exact (C04_number_partial n k h).1 q env s rest hs
+
+/-- Byte level, one edge: the bytes of a sound edge (operand codes, then the operator), run by the
+specification interpreter's step function from any state that has moved and has an empty stack, draw
+exactly the covered commands and continue with the following code. -/
+theorem C04_edge_bytes (env : T2.Env) (frm : Nat) (cmds : List Seg) (e : Edge) (hS : EdgeSound frm cmds e)
+    (hd : ∀ g ∈ cmds, ∀ a ∈ g.args, Decodes a) (s : St) (hr : Ready s) (rest : List Nat) :
+    Reaches strict env s (e.bytes ++ rest) (drawSegs strict s (cmds.take (e.to - frm))) rest :=
+  edge_reaches env frm cmds e hS hd s hr rest
+
+/-- Any path of proposed edges from node 0 to the end of the sub-path — whatever the shortest-path
+routine returns — compiles to bytes that the specification interpreter executes as exactly the
+sub-path: all its lines and curves, in order, with the encoder's recorded deltas, ending with an empty
+stack in front of the following code.
+Partial: paths that use hvcurveto/vhcurveto edges are not covered yet. -/
+theorem C04_path_sound_partial (env : T2.Env) (segs : List Seg) (path : List Edge)
+    (hp : IsPath segs 0 path) (hcore : ∀ e ∈ path, coreOp2 e.op = true)
+    (hd : ∀ g ∈ segs, ∀ a ∈ g.args, Decodes a) (s : St) (hr : Ready s) (rest : List Nat) :
+    Reaches strict env s (path.flatMap Edge.bytes ++ rest) (drawSegs strict s segs) rest := by
+  simpa using path_reaches env segs 0 path hp hcore hd s hr rest
+
+/-- the full statement: any path of proposed edges -/
+def C04_path_sound_full : Prop :=
+  ∀ (env : T2.Env) (segs : List Seg) (path : List Edge), IsPath segs 0 path →
+    (∀ g ∈ segs, ∀ a ∈ g.args, Decodes a) → ∀ (s : St), Ready s → ∀ (rest : List Nat),
+      Reaches strict env s (path.flatMap Edge.bytes ++ rest) (drawSegs strict s segs) rest
+
+/-- non-vacuity: for "5 0 lineto-delta, 0 7, 3 4" the proposals at node 0 are rlineto over 1 and 2… -/
+def exSegs : List Seg :=
+  [.line ⟨5 * 65536, [144]⟩ ⟨0, [139]⟩, .line ⟨0, [139]⟩ ⟨7 * 65536, [146]⟩,
+   .line ⟨3 * 65536, [142]⟩ ⟨4 * 65536, [143]⟩]
+
+example : (appendEdges 0 exSegs).map (fun e => (e.op, e.to)) =
+    [(.rlineto, 1), (.rlineto, 3), (.hlineto, 2)] := by decide
+
+example : IsPath exSegs 0 [⟨[⟨5 * 65536, [144]⟩, ⟨7 * 65536, [146]⟩], .hlineto, 2⟩,
+    ⟨[⟨3 * 65536, [142]⟩, ⟨4 * 65536, [143]⟩], .rlineto, 3⟩] :=
+  .step (by decide) (.step (by decide) .done)
 
 end SfntV.Props.C04
